@@ -6,5 +6,5 @@ CONSTANTS
   NMax = @NMAX@
   Salt = @SALT@
   Palette = @PALETTE@
-INVARIANTS EmitInv GridOK ProdXOK
+INVARIANTS EmitInv GridOK ProdXOK EqualOK
 CHECK_DEADLOCK FALSE
